@@ -143,10 +143,72 @@ fn zst_cases() {
     }
 }
 
+/// nested continuations, `depth` levels deep; all threads are at the deepest level at the same time
+fn nest(depth: u32, arrived: &std::sync::atomic::AtomicUsize, threads: usize) -> Parsed<i64, i64> {
+    use std::sync::atomic::Ordering;
+    if depth == 0 {
+        arrived.fetch_add(1, Ordering::SeqCst);
+        let t0 = std::time::Instant::now();
+        while arrived.load(Ordering::SeqCst) < threads && t0.elapsed().as_millis() < 3000 {
+            std::thread::yield_now();
+        }
+        return Res(Ok(0));
+    }
+    let p: Parsed<i64, i64> = Res(Ok(1));
+    if depth % 2 == 0 {
+        p.and_then(|v| match nest(depth - 1, arrived, threads) {
+            Res(Ok(x)) => Ok(x + v),
+            Res(Err(e)) => Err(e),
+            Fallthrough => Err(-1),
+        })
+    } else {
+        let mut inner = 0;
+        let r = p.and_also(|v| match nest(depth - 1, arrived, threads) {
+            Res(Ok(x)) => {
+                inner = x;
+                *v += 0;
+                Ok(())
+            }
+            Res(Err(e)) => Err(e),
+            Fallthrough => Err(-1),
+        });
+        r.map(|v| v + inner)
+    }
+}
+
 pub fn run(opts: &HashMap<String, String>) -> i32 {
     let out: String = opt(opts, "out", "parsed.ndjson".to_string());
     trace::open(&out);
     trace::rec(json!({"ev":"reset","kind":"parsed"}));
+    // The combinators are pure: what they return cannot depend on how often or from how many threads they were used
+    // before.  Pass 1 (recorded), a storm of unrecorded calls of every case, many threads nested deeply at the same
+    // time (recorded as one summary), pass 2 (recorded).
+    all_cases();
+    let saved = trace::suspend();
+    trace::open_null();
+    for _ in 0..600 {
+        all_cases();
+    }
+    let _ = trace::close();
+    trace::resume(saved);
+    CALLS.with(|c| c.borrow_mut().clear());
+    let (threads, depth) = (64usize, 40u32);
+    let arrived = std::sync::Arc::new(std::sync::atomic::AtomicUsize::new(0));
+    let handles: Vec<_> = (0..threads)
+        .map(|_| {
+            let a = arrived.clone();
+            std::thread::spawn(move || std::panic::catch_unwind(|| nest(depth, &a, threads) == Res(Ok(depth as i64))).unwrap_or(false))
+        })
+        .collect();
+    let ok = handles.into_iter().map(|h| h.join().unwrap_or(false)).filter(|&b| b).count();
+    trace::rec(json!({"ev":"nest","threads":threads,"depth":depth,"ok":ok}));
+    all_cases();
+    let n = trace::close();
+    println!("{{\"cases\":{}}}", n - 1);
+    0
+}
+
+fn all_cases() {
     let nok = json!(["nok", 0]);
     for p in parsed_vals() {
         // err_into
@@ -245,7 +307,4 @@ pub fn run(opts: &HashMap<String, String>) -> i32 {
         emit("r_and_do", rj(&r), nok.clone(), rj(&o));
     }
     zst_cases();
-    let n = trace::close();
-    println!("{{\"cases\":{}}}", n - 1);
-    0
 }
